@@ -22,7 +22,7 @@ from simkit import core, env
 
 PROP = 'C19'
 WORKER = os.path.join(env.VERIF, 'checks', 'c19_worker.py')
-CHEAP = ['str', 'fmt_h', 'fmt_A', 'fmt_m', 'fmt_a', 'atoms_order', 'chiral_morgan', 'smiles_atoms_order', 'sssr',
+CHEAP = ['str', 'fmt_h', 'fmt_A', 'fmt_m', 'fmt_a', 'fmt_ns', 'fmt_nsh', 'fmt_nsm', 'fmt_nb', 'fmt_nz', 'fmt_nx', 'fmt_Ahm', 'atoms_order', 'chiral_morgan', 'smiles_atoms_order', 'sssr',
          'atoms_rings_sizes', 'connected_components', 'linear_hash_set', 'morgan_hash_set', 'stereo_sets', 'labels']
 MEDIUM = ['linear_fingerprint', 'morgan_fingerprint', 'automorphism', 'self_sub', 'self_sub_all', 'scoped_sub', 'kekule', 'thiele',
           'canonicalize', 'neutralize', 'morgan_hash_smiles', 'morgan_smiles_hash', 'linear_hash_smiles', 'linear_smiles_hash', 'clean_stereo', 'clean_isotopes', 'implicify_hydrogens', 'explicify_hydrogens']
@@ -62,7 +62,7 @@ CORE_SMILES = [
 ]
 FILES = ['isomorphism.sdf', 'mcs.sdf', 'standardize.sdf', 'arenes.sdf', 'hbonds.sdf', 'depict.sdf', 'implicit.sdf',
          'morgan_ruiner.sdf', 'stereo.sdf', 'MR.rdf', 'ions.rdf', 'standardize.rdf', 'implicit.mrv', 'cycle.sdf']
-RXN_OBS = ['rxn_str', 'rxn_fmt_m', 'rxn_fmt_h', 'rxn_cgr', 'rxn_cgr_order', 'rxn_centers', 'rxn_canonicalize', 'rxn_standardize',
+RXN_OBS = ['rxn_str', 'rxn_fmt_m', 'rxn_fmt_h', 'rxn_fmt_ns', 'rxn_fmt_A', 'rxn_cgr', 'rxn_cgr_order', 'rxn_centers', 'rxn_canonicalize', 'rxn_standardize',
            'rxn_kekule', 'rxn_thiele', 'rxn_members', 'rxn_member_orders', 'rxn_member_atoms_order', 'rxn_member_mapping', 'rxn_hash_eq',
            'rxn_clean_stereo', 'rxn_canonicalize_log', 'rxn_standardize_log', 'rxn_remove_reagents', 'rxn_contract_ions',
            'rxn_fix_mapping', 'rxn_fix_groups_mapping', 'rxn_keep_reagents', 'rxn_keep_reagents_rules', 'rxn_clean_isotopes', 'rxn_implicify_hydrogens',
